@@ -13,8 +13,12 @@ EXTENDS Chain, Json, SequencesExt
 CONSTANTS MaxSteps, MaxResub, MaxRestart, Emit, QKinds,
           StepQ      \* kinds of read answers recorded after EVERY step (reads interleaved with ingestion)
 
-VARIABLES hist, nres, nrst
-mvars == <<cvars, hist, nres, nrst>>
+VARIABLES hist, nres, nrst,
+          shape      \* <<>> = any parent; otherwise shape[i] is the parent of header i (a tree shape chosen by the driver)
+mvars == <<cvars, hist, nres, nrst, shape>>
+\* tree shapes to follow; a configuration may replace it (Shapes <- ShapesV of a generated module) to steer long
+\* simulated histories towards deep trees (nested stale forks, long orphan chains) that uniform choices rarely build
+Shapes == {<<>>}
 
 -----------------------------------------------------------------------------
 (* Expected-answer tables *)
@@ -96,28 +100,30 @@ Obs == [st  |-> SnapSt(rows', next'), ht |-> Snap(rows', next', GetH),
         cum |-> Snap(rows', next', GetC), tip |-> TipOf(rows'),
         q   |-> IF StepQ = {} THEN <<>> ELSE StepTable']
 
-MCInit == Init /\ hist = <<>> /\ nres = 0 /\ nrst = 0
+MCInit == Init /\ hist = <<>> /\ nres = 0 /\ nrst = 0 /\ shape \in Shapes
 
 MCSubmit ==
   /\ Len(hist) < MaxSteps
-  /\ \E p \in ParentChoices(next), w \in Works, root \in RootChoices(next), f \in BOOLEAN :
+  /\ (shape = <<>> \/ next <= Len(shape))
+  /\ \E p \in (IF shape = <<>> THEN ParentChoices(next) ELSE ParentChoices(next) \cap {shape[next]}),
+        w \in Works, root \in RootChoices(next), f \in BOOLEAN :
        /\ SubmitNew(p, w, root, f)
        /\ hist' = Append(hist, [op |-> "add", id |-> next, parent |-> p, work |-> w, root |-> root,
                                 forb |-> f, res |-> result', dev |-> devused'] @@ Obs)
-  /\ UNCHANGED <<nres, nrst>>
+  /\ UNCHANGED <<nres, nrst, shape>>
 
 MCResubmit ==
   /\ Len(hist) < MaxSteps /\ nres < MaxResub
   /\ \E i \in 1 .. MaxN :
        /\ Resubmit(i)
        /\ hist' = Append(hist, [op |-> "resubmit", id |-> i, res |-> result', dev |-> ""] @@ Obs)
-  /\ nres' = nres + 1 /\ UNCHANGED nrst
+  /\ nres' = nres + 1 /\ UNCHANGED <<nrst, shape>>
 
 MCRestart ==
   /\ Len(hist) < MaxSteps /\ nrst < MaxRestart /\ result # "restart" /\ next > 1
   /\ Restart
   /\ hist' = Append(hist, [op |-> "restart", res |-> "restart", dev |-> ""] @@ Obs)
-  /\ nrst' = nrst + 1 /\ UNCHANGED nres
+  /\ nrst' = nrst + 1 /\ UNCHANGED <<nres, shape>>
 
 MCNext == MCSubmit \/ MCResubmit \/ MCRestart
 MCSpec == MCInit /\ [][MCNext]_mvars
@@ -125,11 +131,12 @@ MCSpec == MCInit /\ [][MCNext]_mvars
 StateView == cvars
 RowsView  == <<rows, next>>
 
-Terminal == Len(hist) = MaxSteps \/ (next > MaxN /\ nres = MaxResub /\ nrst = MaxRestart)
+Terminal == Len(hist) = MaxSteps \/ (next > MaxN /\ nres = MaxResub /\ nrst = MaxRestart) \/ (shape # <<>> /\ next > Len(shape))
 
 -----------------------------------------------------------------------------
 EmitInv ==
   CASE Emit = "paths"  -> (Terminal => PrintT(ToJson([hist |-> hist])))
     [] Emit = "states" -> PrintT(ToJson([hist |-> hist, q |-> QTable]))
+    [] Emit = "pathsq" -> (Terminal => PrintT(ToJson([hist |-> hist, q |-> QTable])))   \* long simulated histories with the final answer table
     [] OTHER -> TRUE
 =============================================================================
